@@ -180,6 +180,18 @@ def chain(rng, n):
                 F=np.array([rng.uniform(-5, 5) for _ in range(6)]))
 
 
+HALF_AXES = [(1, 1, 0), (3, 4, 0), (1, 0, 1), (0, 1, 1), (1, 2, 2), (1, 0, 0), (0, 1, 0), (0, 0, 1), (2, -1, 0), (-1, 3, 0), (2, 3, 6)]
+
+
+def half_turn(rng, pscale=2.0):
+    """an exact half turn about a rational axis: R = 2 v v^T / |v|^2 - I (every pivot sub-branch of the logarithm)"""
+    v = np.array(rng.choice(HALF_AXES), dtype=float)
+    T = np.eye(4)
+    T[:3, :3] = 2 * np.outer(v, v) / float(v @ v) - np.eye(3)
+    T[:3, 3] = [rng.uniform(-pscale, pscale) for _ in range(3)]
+    return T
+
+
 def gen_args(fn, rng):
     """returns (class label, list of argument values) for the shared function fn"""
     n = rng.randint(1, 7)
@@ -190,6 +202,11 @@ def gen_args(fn, rng):
     T = rand_se3(rng, 3.0)
     V = np.array([rng.uniform(-2, 2) for _ in range(6)])
     cls = "n=%d" % n
+    if fn in ("MatrixLog3", "MatrixLog6") and rng.random() < 0.35:
+        H = half_turn(rng)
+        return "half-turn", [H[:3, :3] if fn == "MatrixLog3" else H]
+    if fn in ("CartesianTrajectory", "ScrewTrajectory") and rng.random() < 0.25:
+        return "half-turn|N=%d|method=%d" % (N, method), [np.eye(4), half_turn(rng), rng.uniform(0.5, 5), N, method]
     if fn == "Adjoint" or fn == "TransInv" or fn == "TransToRp" or fn == "MatrixLog6" or fn == "TestIfSE3":
         return "SE3", [T]
     if fn in ("AxisAng3", "VecToso3"):
